@@ -143,7 +143,9 @@ class HandlerPolicy(Policy):
             if leaf.path.startswith("i"):
                 return [(cfg, ListV([Sym(("item", leaf.path, 0)), Sym(("item", leaf.path, 1))], "list"))]
             return [(cfg, Sym(("val", leaf.path)))]
-        if isinstance(fval, FuncV) and fval.name.endswith(".ast_name") and args and isinstance(args[0], NodeV) \
+        if getattr(self, "plain_ast_name", False) and isinstance(fval, FuncV) and fval.name.endswith(".ast_name"):
+            pass
+        elif isinstance(fval, FuncV) and fval.name.endswith(".ast_name") and args and isinstance(args[0], NodeV) \
                 and not is_leaf(args[0]) and isinstance(args[0].fields.get("ctx"), NodeV):
             if args[0].fields["ctx"].cls == "Load" and isinstance(args[0].fields.get("id"), Const):
                 name = args[0].fields["id"].v
